@@ -270,3 +270,22 @@ Example discover_example :
   DOk [s_ [116;47;97;47;112;46;114;101;103;111]; s_ [116;47;114;46;114;101;103;111];
        s_ [116;47;97;47;112;46;114;101;103;111]].
 Proof. vm_compute. reflexivity. Qed.
+
+(* oracles meeting H_ops and H_loc: one violation per file, located in it *)
+Definition ex_res (f : str) (collect : bool) : result :=
+  {| r_viol := [{| v_file := f; v_key := [118%N] |}]; r_notices := [];
+     r_aggs := if collect then [([107%N], [f])] else []; r_dirs := [(f, [])] |}.
+
+Example compose_hypotheses_satisfiable :
+  (forall f b, r_viol (ex_res f b) = r_viol (ex_res f false)) /\
+  (forall f b v, In v (r_viol (ex_res f b)) -> v_file v = f).
+Proof. split; [reflexivity | ]. intros f b v [<- | []]. reflexivity. Qed.
+
+(* the two arguments overlap: three discovered paths, two distinct files scanned *)
+Example lint_tree_example :
+  exists fin,
+    lint_tree spec_skips spec_ext (fun _ _ => false) (fun _ => true) ex_res ex_aggreport
+              ex_tree [s_ [116]; s_ [116;47;97;47]] [] =
+    LOk [s_ [116;47;97;47;112;46;114;101;103;111]; s_ [116;47;114;46;114;101;103;111]] fin /\
+    f_scanned fin = 2 /\ f_num fin = 3 /\ f_failed fin = 3.
+Proof. eexists. vm_compute. repeat split. Qed.
